@@ -111,6 +111,8 @@ func scenarios(tier string) []scenario {
 		scenario{Name: "nia2 long;short;short || nia2 short;short", Threads: [][]string{{"mac-nia2-long-then-short", "mac-nia2"}, {"mac-nia2", "mac-nia2"}}},
 		scenario{Name: "two ops per thread: ciphers", Threads: [][]string{{"encrypt-nea1", "mac-nia1"}, {"encrypt-nea3", "mac-nia3"}}},
 		scenario{Name: "two ops per thread: codecs", Threads: [][]string{{"gmm-decode-encode", "gsm-decode-encode"}, {"gsm-decode-encode", "gmm-decode-encode"}}},
+		scenario{Name: "qos failing;ok || qos || qos", Threads: [][]string{{"qos-marshal-failing-then-ok"}, {"qos"}, {"qos"}}},
+		scenario{Name: "qos failing;ok;qos || qos;qos", Threads: [][]string{{"qos-marshal-failing-then-ok", "qos"}, {"qos", "qos"}}},
 		scenario{Name: "logging mix", Threads: [][]string{{"mac-nia0", "guti-to-nas-failing"}, {"suci-to-string-failing", "encrypt-nea0"}, {"session-ambr-failing"}}},
 	)
 	return out
